@@ -6,8 +6,13 @@ from concurrent.futures import ThreadPoolExecutor
 ROOT = os.path.dirname(os.path.dirname(os.path.abspath(__file__)))
 REPO = os.environ.get("MRL_REPO", "/repo")
 CACHE = os.path.join(ROOT, ".cache")
-TARGET = os.path.join(CACHE, "target")
+# MRL_REPO: run against another checkout of the crate (mutation sweeps in scratch worktrees); the
+# registered checks always use /repo itself
+_ALT = REPO != "/repo"
+_TAG = hashlib.sha256(REPO.encode()).hexdigest()[:10] if _ALT else ""
+TARGET = os.path.join(CACHE, "target" + ("-" + _TAG if _ALT else ""))
 DRIVE = os.path.join(TARGET, "debug", "mrl-drive")
+HARNESS = os.path.join(ROOT, "harness") if not _ALT else os.path.join(CACHE, "harness-" + _TAG)
 MODEL = os.path.join(ROOT, "model", "mrl-model")
 B = 32768
 HDR = 7
@@ -48,10 +53,11 @@ class Lock:
 # --------------------------------------------------------------------------- builds
 def gen_consts():
     rc, out, err = sh([sys.executable, os.path.join(ROOT, "tools", "gen_consts.py"),
-                       os.path.join(ROOT, "coq", "Consts.v"), os.path.join(CACHE, "consts.json")])
+                       os.path.join(ROOT, "coq", "Consts.v") if not _ALT else os.path.join(CACHE, "Consts-%s.v" % _TAG),
+                       os.path.join(CACHE, "consts%s.json" % _TAG)])
     if rc != 0:
         return None, (out + err).strip()
-    return json.load(open(os.path.join(CACHE, "consts.json"))), ""
+    return json.load(open(os.path.join(CACHE, "consts%s.json" % _TAG))), ""
 
 
 def build_coq():
@@ -65,15 +71,20 @@ def build_coq():
 
 
 def build_harness():
-    with Lock("cargo"):
+    with Lock("cargo" + _TAG):
+        if _ALT:
+            os.makedirs(os.path.join(HARNESS, "src"), exist_ok=True)
+            shutil.copy(os.path.join(ROOT, "harness", "src", "main.rs"), os.path.join(HARNESS, "src", "main.rs"))
+            toml = open(os.path.join(ROOT, "harness", "Cargo.toml")).read().replace('path = "/repo"', 'path = "%s"' % REPO)
+            open(os.path.join(HARNESS, "Cargo.toml"), "w").write(toml)
         lock_src = os.path.join(REPO, "Cargo.lock")
-        lock_dst = os.path.join(ROOT, "harness", "Cargo.lock")
+        lock_dst = os.path.join(HARNESS, "Cargo.lock")
         if os.path.exists(lock_src) and not os.path.exists(lock_dst):
             shutil.copy(lock_src, lock_dst)
         env = {"RUSTFLAGS": "--cfg mrecordlog_verif", "CARGO_TARGET_DIR": TARGET,
                "CARGO_NET_OFFLINE": "true"}
         rc, out, err = sh(["cargo", "build", "--offline", "--quiet"],
-                          cwd=os.path.join(ROOT, "harness"), env=env, timeout=1800)
+                          cwd=HARNESS, env=env, timeout=1800)
         if rc != 0:
             raise BuildError("cargo build of the hooked crate failed:\n" + err[-3000:])
 
